@@ -164,3 +164,26 @@ Example C08_example_inplace :
   let idx := [mkRow 3 0 2; mkRow 7 2 2; mkRow 11 4 2]%N in
   assemble_inplace H fetch (rev idx) [1; 2; 0; 0; 5; 6]%N = Some ([1; 2; 3; 4; 5; 6]%N, [7%N]).
 Proof. vm_compute. reflexivity. Qed.
+
+(* What the unique O_EXCL temp name is for -- the property is REFUTED for a StoreChunk that uses one temp
+   name per chunk id opened with O_TRUNC ([step_shared]; this is seeded mutant C08-1): two writers of the
+   same chunk, A: create, write, close | B: open+truncate the same temp file | A: rename -- and the chunk's
+   final name holds an empty object, although both writers were handed a complete valid one.  With the real
+   code (distinct temp names) C08_no_partial_chunk_visible excludes exactly this for every schedule. *)
+Example C08_shared_temp_name_refuted :
+  let sched := [(0, ANext 0); (0, ANext 0); (0, ANext 0); (0, ANext 0); (0, ANext 9); (0, ANext 0);
+                (1, ANext 0); (1, ANext 0); (1, ANext 0); (1, ANext 0);
+                (0, ANext 0); (0, ANext 0)] in
+  let s := run (step_shared ex_base ex_wd) sched (init ex_base ex_wd ex_s0) in
+  stat ex_final (fst s) = Some (EFile meta0 []) /\ snd s 0 = PcDone None /\
+  wd_obj (ex_wd 0) = [40; 181; 1; 2; 3]%N.
+Proof. vm_compute. repeat split; reflexivity. Qed.
+
+(* the same schedule with the real code: the final name holds the complete object *)
+Example C08_same_schedule_real_code :
+  let sched := [(0, ANext 0); (0, ANext 0); (0, ANext 0); (0, ANext 0); (0, ANext 9); (0, ANext 0);
+                (1, ANext 0); (1, ANext 0); (1, ANext 0); (1, ANext 0);
+                (0, ANext 0); (0, ANext 0)] in
+  let s := run (StoreCrash.step ex_base ex_wd) sched (init ex_base ex_wd ex_s0) in
+  stat ex_final (fst s) = Some (EFile meta0 [40; 181; 1; 2; 3]%N).
+Proof. vm_compute. reflexivity. Qed.
